@@ -582,6 +582,19 @@ def check_jsonld_reader(cx: Cx, ob: Ob) -> None:
                     ob.violate(m.qualname, where(m, ev.line), "from_jsonld subscripts a value that has not been checked to be a dict", detail="dict-guard")
             else:
                 ob.violate(m.qualname, where(m, ev.line), f"from_jsonld stores `{show(ev.b)[:40]}` for a term: neither the string value nor its '@id'", detail="store-value")
+    # nothing rewrites the collected terms afterwards
+    targets = {ev.a[1] for p in lp.body for ev in p.events if ev.kind == "store" and op(ev.a) == "item"}
+    for ev, ctx in s.walk():
+        if ev.kind == "store" and op(ev.a) == "item" and ev.a[1] in targets and not (ctx.loops and ctx.loops[0] is lp):
+            ob.violate(
+                m.qualname,
+                where(m, ev.line),
+                f"from_jsonld rewrites the collected terms after the main loop (`{show(ev.a)[:40]} = {show(ev.b)[:40]}`): a term's URI prefix no longer is what the context says",
+                witness="{'urn': 'https://example.org/urn/', 'uuid': 'urn:uuid:'}: 'uuid' is rewritten through the unrelated term 'urn'",
+                detail="post-processing",
+            )
+        if ev.kind == "expr" and op(ev.a) == "call" and op(ev.a[1]) == "attr" and ev.a[1][1] in targets and ev.a[1][2] in ("pop", "update", "clear", "popitem", "setdefault") and not (ctx.loops and ctx.loops[0] is lp):
+            ob.violate(m.qualname, where(m, ev.line), f"from_jsonld changes the collected terms after the main loop (.{ev.a[1][2]})", detail="post-processing")
     if not seen_str:
         ob.violate(m.qualname, m.where, "from_jsonld never takes plain string terms", detail="no-str-terms")
     if not seen_dict:
@@ -667,3 +680,41 @@ def groupby_sortedness(cx: Cx, ob: Ob) -> None:
                         witness="{'a': 'U', 'b': 'V', 'c': 'U'} sorted by item is (a,U),(b,V),(c,U): two groups for U",
                         detail="groupby-unsorted",
                     )
+
+
+@obligation("C13-X8", "the Record model stores prefixes and URI prefixes verbatim: no pydantic string transformation (strip / case folding / length limits) in its model_config or field declarations", floor=1)
+def x8(cx: Cx, ob: Ob) -> None:
+    from ..rules import record_verbatim
+
+    record_verbatim(cx, ob)
+
+
+@obligation("C13-X9", "no function on the loading path (_prepare, the from_* / load_* family and what they call) that reads a file or URL is memoised: loading the same location again reads it again", floor=5)
+def x9(cx: Cx, ob: Ob) -> None:
+    from ..rules import memoised_io
+
+    ci = cx.model.cls(CONV, ob.id)
+    roots = [f"{API}._prepare"] + [m.qualname for m in ci.methods.values() if m.name.startswith("from_")] + [q for q in cx.model.functions if q.startswith(f"{API}.load_")]
+    memoised_io(cx, ob, roots)
+
+
+@obligation("C13-X10", "Converter.__init__ reads its (Iterable, possibly one-shot) `records` argument only through one materialising call (sorted/list) and keeps that fresh list - never the caller's list object, never sorted in place", floor=2)
+def x10(cx: Cx, ob: Ob) -> None:
+    from ..rules import constructor_owns_records
+
+    constructor_owns_records(cx, ob)
+
+
+@obligation("C13-X6", "LOOKUP None-discipline (shared with C02-D3): lookup results and str|None results are tested with `is None`, never by truthiness - the empty prefix, the empty URI prefix and the empty identifier are legitimate values", floor=40)
+def x6(cx: Cx, ob: Ob) -> None:
+    from ..rules import scan_none_discipline
+    from .c02 import none_scope
+
+    scan_none_discipline(cx, ob, none_scope(cx))
+
+
+@obligation("C13-X2", "state closure (shared with C05): a converter built by any loader answers from its records alone - no query method writes converter state (no last-match / result caches)", floor=5)
+def x2(cx: Cx, ob: Ob) -> None:
+    from ..rules import state_closure
+
+    state_closure(cx, ob)
